@@ -87,9 +87,14 @@ bool compare_results(const std::string& a, const std::string& b, std::string& wh
     why = fmt("results have %zu vs %zu items; first structural difference at item %zu: %s vs %s", va.size(), vb.size(), i, i < va.size() ? va[i].first.c_str() : "(end)", i < vb.size() ? vb[i].first.c_str() : "(end)");
     return false;
   }
+  // a perfect fit (sum of squares at round-off level, 1e-50): residuals are noise and a standardized residual is noise
+  // divided by noise - not compared
+  bool perfect_fit = false;
+  for (size_t i = 0; i < va.size(); i++) if (under(va[i].first, "sum-of-squares")) { double x = 1, y = 1; if (gnet::parse_num(va[i].second, x) && gnet::parse_num(vb[i].second, y) && std::fabs(x) < 1e-20 && std::fabs(y) < 1e-20) perfect_fit = true; }
   for (size_t i = 0; i < va.size(); i++) {
     if (va[i].first != vb[i].first) { why = "element structure differs: " + va[i].first + " vs " + vb[i].first; return false; }
     if (va[i].second == vb[i].second) continue;
+    if (perfect_fit && under(va[i].first, "/std-residual")) continue;
     double x, y;
     if (!gnet::parse_num(va[i].second, x) || !gnet::parse_num(vb[i].second, y)) { why = va[i].first + ": '" + va[i].second + "' vs '" + vb[i].second + "'"; return false; }
     const std::string& p = va[i].first;
@@ -98,7 +103,7 @@ bool compare_results(const std::string& a, const std::string& b, std::string& wh
     // (with an a posteriori m0 they scale with the sum of squares, which gets 5e-3 below: with instrument heights, where
     //  the adjusted positions of two rounds may differ by gama-local's own stopping rule, they get the same)
     else if (under(p, "std-error-ellipses") || under(p, "cov-mat")) tol = (g_has_dh ? 5e-3 : 1e-3) * std::max(1.0, std::fabs(x)); // mm / mm^2, printed with few digits
-    else if (under(p, "orientation-shifts")) tol = 2e-5;                                                     // gon
+    else if (under(p, "orientation-shifts")) tol = coord_tol;                                                // gon (as adjusted directions)
     else if (under(p, "observations/")) {
       std::string leaf = p.substr(p.rfind('/') + 1);
       if (leaf == "obs" || leaf == "adj") tol = coord_tol * std::max(1.0, std::fabs(x) * 1e-3);   // metres or gon
@@ -396,6 +401,17 @@ bool apply_workload_edit(std::string& d, const Step& st)
     d.insert(close, "<coordinates>\n" + body + cov + " </cov-mat>\n</coordinates>\n");
     return true;
   }
+  if (st.op == "tiny") {
+    // an observed value that is negative, tiny and needs all its digits: -1.2345678901234567e-05 is 23 characters in
+    // scientific notation, the longest a double gets (height differences and vector components are the quantities
+    // that can be that small)
+    std::vector<int> v = tags_named({"dh", "vec"}); if (v.empty()) return false;
+    const xmlscan::Tag& T = S.tags[v[(size_t)st.arg(0) % v.size()]];
+    static const char* TV[] = {"-0.000012345678901234567", "-0.00000010000000000000001", "-0.0000234567890123456", "0.000098765432109876543"};
+    const char* want = T.name == "dh" ? "val" : (st.arg(1) % 3 == 0 ? "dx" : st.arg(1) % 3 == 1 ? "dy" : "dz");
+    for (auto& a : T.attrs) if (d.substr(a.nb, a.ne - a.nb) == want) { d.replace(a.vb, a.ve - a.vb, TV[st.arg(2) % 4]); return true; }
+    return false;
+  }
   if (st.op == "noise") {
     // perturb an observed value in its last written digit
     std::vector<int> v = tags_named({"z-angle", "s-distance", "direction", "distance", "angle", "dh", "azimuth"}); if (v.empty()) return false;
@@ -556,8 +572,8 @@ Plan RestartEngine::generate(uint64_t seed, uint64_t, const std::string&)
   p.set("extra", extra); p.set("extra_later", later);
   if (g.chance(1, 3)) { p.seti("noxml", 1); if (g.chance(1, 2)) p.set("angular", "--angular 360"); else if (g.chance(1, 4)) p.set("angular", "--angular 400"); }
   int ne = g.chance(1, 3) ? 0 : (int)g.range(1, 4);
-  static const char* W[] = {"dh", "dh", "adh", "ext", "dist", "status", "noise", "prec", "prec", "ids", "cdh", "cdh", "coo", "coo"};
-  for (int i = 0; i < ne; i++) { Step s; s.op = W[g.below(14)]; s.a = {(long long)g.below(1000), (long long)g.below(1000), (long long)g.below(1000)}; p.steps.push_back(s); }
+  static const char* W[] = {"dh", "dh", "adh", "ext", "dist", "status", "noise", "prec", "prec", "ids", "cdh", "cdh", "coo", "coo", "tiny"};
+  for (int i = 0; i < ne; i++) { Step s; s.op = W[g.below(15)]; s.a = {(long long)g.below(1000), (long long)g.below(1000), (long long)g.below(1000)}; p.steps.push_back(s); }
   return p;
 }
 
